@@ -136,6 +136,14 @@ def run_edge(spec, position, edge, variant=0, pool=None, missing=False, builtin=
         events = audit_stop() if ("nowrite" in want and is_read) else {}
         raw = res.read_raw()
         matched = [o for o in outs if realize.matches(obs, o["ret"], pool)[0]]
+        # key order is not part of the model (popitem may return any item there); the reference semantics of
+        # C03 is CPython itself: a dict with this insertion order pops its LAST item
+        if "ret" in want and lab["op"] == "popitem" and obs[0] == "ret" and isinstance(pre_py, dict) and len(pre_py) >= 2:
+            last_key = list(pre_py)[-1]
+            got_key = obs[1][0] if isinstance(obs[1], tuple) and obs[1] else None
+            if got_key != last_key:
+                problems.append({"aspect": "ret", "detail": f"popitem() removed {got_key!r}; a dict holding the keys in the "
+                                                            f"order {list(pre_py)!r} removes the last one, {last_key!r}"})
         if "ret" in want and not matched:
             problems.append({"aspect": "ret", "detail": realize.matches(obs, outs[0]["ret"], pool)[1]})
         cands = matched or outs
